@@ -17,7 +17,12 @@ LEVEL = 'exploration'
 RULE = ('case = (recipe stack of 1..3 views from the catalogue, argument '
         'variant, 0..2 small source tables, global sort_buffersize knob, '
         'schedule of ITER/NEXT/BURST/DRAIN/DROP/CLOSE/GC steps over 2..3 '
-        'iterator tasks drawn from 6 schedule shapes, then a fresh pass); '
+        'iterator tasks drawn from 6 schedule shapes, in 15% of the cases '
+        'with ARM steps (a transient source failure: one pass over a source '
+        'raises instead of row i, 8 exception classes incl. a '
+        'BaseException; the iterator that meets it is written off, all '
+        'others and all later passes are held to the reference), then a '
+        'fresh pass with faults stopped); '
         'generated from sha256(seed/prop/g). Non-trivial: the solo reference '
         'did not raise, it has at least one data row, and at least two '
         'iterators existed unfinished at the same time after some row had '
@@ -54,6 +59,14 @@ HOT = ['frompickle-mem', 'fromcsv-mem', 'fromcsv-path',
        'hashlookupjoin', 'hashantijoin', 'join', 'unjoin', 'diff',
        'recorddiff', 'mergesort', 'distinct', 'recast', 'pivot',
        'fromdb-conn', 'fromdb-factory', 'biselect', 'aggregate']
+
+
+FAULT_KINDS = ['plain', 'plain', 'type', 'value', 'key', 'index', 'attr',
+               'os', 'abort']
+
+
+def _is_injected(t, ex):
+    return isinstance(ex, (devices.SimSourceError, devices.SimSourceAbort))
 
 
 def budget(tier):
@@ -125,6 +138,18 @@ def gen_case(rng, tier, g):
         # the view is dropped while iterators are alive
         steps.insert(rng.randint(0, len(steps)),
                      ['DROPVIEW', rng.randrange(nviews)])
+    if name != 'fromdicts-gen' and rng.random() < 0.15:
+        # transient source failure: one pass over a source raises instead of
+        # row i; the iterator that meets it fails, every other iterator and
+        # every later pass must be unaffected (fault-injecting configuration,
+        # kept apart from the fault-free one)
+        for _ in range(rng.choice([1, 1, 2])):
+            si = rng.randrange(max(rec.nsrc, 1))
+            n = len(tables[si]) - 1
+            steps.insert(rng.randint(0, max(0, len(steps) - 1)),
+                         ['ARM', si, rng.choice([0, 1, 2, max(1, n // 2),
+                                                 max(1, n), n + 1]), 1,
+                          rng.choice(FAULT_KINDS)])
     case = {'prop': PROP, 'stack': stack, 'tables': tables, 'steps': steps,
             'shape': shape,
             'rows': rng.choice(['alias', 'alias', 'copy']),
@@ -189,7 +214,9 @@ def run_case(case):
                              wrap_sources=case.get('wrap', False))
             if case.get('fork'):
                 views = views[:1] + _forks(e, w, views[0], case['fork'])
-            sch = Sched(views, expected, log=log, items=is_items(stack))
+            faulty = any(op[0] == 'ARM' for op in case['steps'])
+            sch = Sched(views, expected, log=log, items=is_items(stack),
+                        expect_fault=_is_injected if faulty else None)
 
             def after(s, op):
                 states.add(label + ':' + s.position_state())
@@ -197,7 +224,24 @@ def run_case(case):
             result = None
             try:
                 try:
-                    sch.run(case['steps'])
+                    if faulty:
+                        for op in case['steps']:
+                            if op[0] == 'ARM':
+                                if op[1] < len(w.s) and \
+                                        hasattr(w.s[op[1]], 'arm'):
+                                    w.s[op[1]].arm(op[2], passes=op[3],
+                                                   kind=op[4])
+                                    log.add('step', op)
+                            else:
+                                sch.step(op)
+                        # faults stop before the fresh passes
+                        for s in w.s:
+                            if hasattr(s, 'disarm'):
+                                s.disarm()
+                        if any(t.failed for t in sch.tasks.values()):
+                            probes['iterator-failed-by-injection'] = 1
+                    else:
+                        sch.run(case['steps'])
                     for vi in range(len(sch.views)):
                         if sch.views[vi] is not None:
                             sch.fresh(vi)
